@@ -508,6 +508,8 @@ def c14(tier):
         gen_env.c14_scenario(S, fmt, ch, RATE, rng)
         if scen.major(fmt) in (1, 2, 3, 0x13) and scen.is_granular(fmt) and ch == 1:
             gen_env.c14_scenario(S, fmt, ch, RATE, rng, N=3)          # embedded files shorter than a WAV header
+        if scen.major(fmt) in (1, 2, 0x13, 0x18, 0x22) and scen.is_granular(fmt):
+            gen_env.c14_scenario(S, fmt, ch, RATE, rng, rich=True)     # application chunks and strings in front of the audio
     # valid files this library did not write, through every route (AU with annotations up to and beyond the header cache limit,
     # hand-built AIFF / WAV with the chunk types the library never writes)
     for nann in (4, 40, 1000, 51176, 51177, 60000) if tier == "quick" else (0, 1, 4, 40, 1000, 8192, 51175, 51176, 51177, 51200, 60000, 90000, 110000):
@@ -594,6 +596,7 @@ def c15(tier):
             if name == "r":
                 total_k += k
                 gen_env.c15_scenarios(S, fmt, ch, RATE, name, k, step=1, kinds=["zero", "lenbig"], stickies=(1,))
+                gen_env.c15_scenarios(S, fmt, ch, RATE, name, k, step=1, kinds=["short"], stickies=(0,))       # one partial transfer (a block decoder's buffer is filled only partly)
     # real OS errors on the descriptor route: the descriptor is replaced behind the library's back by one that cannot be written
     for fmt, ch in rep + rest:
         if scen.major(fmt) == scen.SD2:
@@ -780,7 +783,8 @@ def c18(tier):
     rng = random.Random(vlib.SEED)
     S = scen.Script()
     peakf = [0x10006, 0x10007, 0x130006, 0x20006, 0x20007, 0x180006, 0x180007, 0x220006]
-    ints = [0x10002, 0x10003, 0x10004, 0x10005, 0x20001, 0x20003, 0x180004, 0x30002, 0xb0003, 0x40004, 0x70002, 0xe0004]
+    ints = [0x10002, 0x10003, 0x10004, 0x10005, 0x20001, 0x20003, 0x180004, 0x30002, 0xb0003, 0x40004, 0x70002, 0xe0004,
+            0x180070, 0x180071, 0x180072, 0x180073, 0x50004, 0x20040, 0x20041, 0x20042, 0x110002]      # + ALAC, PAF-24, DWVW, SDS
     other = [0x30006, 0x40007, 0xb0006, 0xc0006, 0xd0007, 0xa0006]          # float encodings without a PEAK chunk: CALC only
     layouts = ["first", "last", "boundary", "ties", "zero"]
     chans = (1, 2) if tier == "quick" else (1, 2, 5)
@@ -1042,6 +1046,11 @@ def _c02_xtype(tier):
         k = rng.randint(1, max(1, N - 5))
         for T in "dfsi":
             S.add("seek 1 %d 0" % k, "read 1 %s i %d" % (T, 3 * ch))
+        # the two normalisation settings are independent: each off in turn, both caller types read under each setting
+        for off, on in (("FLOAT", "DOUBLE"), ("DOUBLE", "FLOAT")):
+            S.add("cmd 1 SET_NORM_%s 0" % off, "cmd 1 SET_NORM_%s 1" % on)
+            for T in "df":
+                S.add("seek 1 0 0", "read 1 %s f %d" % (T, N + 3))
         S.add("close 1")
     # float / double files read through the integer types (scaling off): nearest integer, saturation with clipping on
     import struct as _st
